@@ -4,7 +4,8 @@ Correspondence: `UniformTime(...)`, `TimeSeries(...).time`, `TimeSeries(data, ti
 `Frequency(f, unit)`, `Frequency.to_period()` on the real classes vs the Lean model `Nitime.C02`
 (variant `.intended`; the driver also prints variant `.current`, the model of the unchanged tree,
 whose agreement is counted in the oracle statistics).  numpy's `arange` length contract is
-monitored (`arange_len`).
+monitored (`arange_len`).  Op `heap`: programs on a store of live objects (constructions FROM other objects interleaved
+with in-place operators on any of them) vs the Lean object store (`Heap`, `exec`): every object after every command.
 Oracle (independent of the Lean model and of the translator): fractions.Fraction arithmetic on
 picoseconds + the documented argument table written out by hand below.
 """
@@ -19,7 +20,13 @@ RULE = ('specifications generated from one PRNG state: all 16 (+16 with an exist
         '(interval, rate, length, duration); values as python int / float / 0-d time object / Frequency; lengths '
         'log-uniform 1..10^5 (quick) or 1..10^6 (thorough); intervals from {whole ps, k/3, k/7, 1-6 digit decimals, 2.2, '
         '0.81327, reciprocal of a rate}; 9 units + None + an invalid name; t0 of both signs; series with 1-d/2-d data; '
-        'distinct = distinct protocol line; non-trivial = accepted specification with n >= 2')
+        'distinct = distinct protocol line; non-trivial = accepted specification with n >= 2; '
+        'object programs (op `heap`): a store of live objects starting from one axis (n 1..400, sometimes 5000; 9 units), 5-18 commands '
+        'drawn from {UniformTime(obj[,unit][,length]), obj.copy(), TimeSeries(data, time=obj[,unit]), series.time, series.copy(), '
+        'obj += / -= scalar or ramp (bare ints in the axis unit / time objects), obj *= k, obj /= k, obj[i] = v} applied to ANY live '
+        'object; every object re-observed after every command, then every object written to directly (buffer, attribute objects); '
+        'every constructor case additionally changes its ARGUMENT objects in place after the construction and the result in place, '
+        're-inspecting the other side')
 ASSUMPTIONS = ['numpy int64/float64 arithmetic is IEEE-754 binary64 / two\'s complement (F64 model checked bit-for-bit in C01)',
                'np.arange(int64 start, stop, step) has length ceil(fl((stop-start)/step)) (monitored by op arange_len in this run)',
                'total extent |t0| + n*interval stays below 2^62 ps; intervals are at least 1 ps; lengths are python ints >= 1']
@@ -177,6 +184,56 @@ def exercise(obj, r):
                     pass
 
 
+def mutate_object(obj, r, undo):
+    """change a time object IN PLACE the ways a caller can: the in-place operators of an axis, direct writes to a time
+    object's buffer and unit label (restored afterwards through `undo` when the object may be used again), the same on
+    the axis and attribute objects of a series"""
+    T = ts()
+    with np.errstate(all='ignore'):
+        if isinstance(obj, T.UniformTime):
+            ext = abs(int(obj.t0)) + len(obj) * abs(int(obj.sampling_interval))
+            ops = [lambda: obj.__iadd__(T.TimeArray(np.int64(r.randint(1, 10**6)), time_unit='ps')),
+                   lambda: obj.__isub__(T.TimeArray(np.int64(r.randint(1, 10**6)), time_unit='ps'))]
+            if ext < 2**58:
+                ops.append(lambda: obj.__imul__(r.choice([2, 3])))
+            if 1 < len(obj) <= 5000 and ext < 2**58:
+                ops.append(lambda: obj.__iadd__(T.TimeArray(np.arange(len(obj), dtype=np.int64) * r.randint(1, 9) + 1, time_unit='ps')))
+            r.shuffle(ops)
+            for op in ops[:r.randint(1, len(ops))]:
+                try:
+                    op()
+                except Exception:   # noqa
+                    pass
+            for attr in ('t0', 'sampling_interval', 'duration'):
+                o = getattr(obj, attr, None)
+                if isinstance(o, np.ndarray) and r.random() < 0.5:
+                    mutate_object(o, r, undo)
+        elif isinstance(obj, T.TimeSeries):
+            for attr in ('t0', 'sampling_interval', 'duration'):
+                o = getattr(obj, attr, None)
+                if isinstance(o, np.ndarray):
+                    mutate_object(o, r, undo)
+            try:
+                mutate_object(obj.time, r, undo)
+            except Exception:   # noqa
+                pass
+        elif isinstance(obj, np.ndarray) and isinstance(obj, T.TimeInterface):
+            raw = obj.view(np.ndarray)
+            keep, unit, cf = raw.copy(), obj.time_unit, getattr(obj, '_conversion_factor', None)
+
+            def restore():
+                raw[...] = keep
+                obj.time_unit = unit
+                if cf is not None:
+                    obj._conversion_factor = cf
+            undo.append(restore)
+            try:
+                raw += 1
+                obj.convert_unit('ns' if unit != 'ns' else 'us')
+            except Exception:   # noqa
+                pass
+
+
 class mem_guard:
     """soft address-space limit around calls into the implementation: a defect that asks for an absurd
     number of samples then raises MemoryError (reported as a failure) instead of getting the harness killed"""
@@ -245,6 +302,26 @@ def construct_seq(build_args, construct, canon, line):
                 c4 = 'err-on-reread ' + type(e).__name__
             if c4 != c1:
                 return 'SEQ result-changes-on-read before=%s after=%s' % (c1, c4)
+            # 5. the argument objects stay the caller's: what the caller does to them AFTERWARDS (in-place operators on
+            # an axis it passed in, direct writes to a time object) is no business of the object built from them
+            undo = []
+            for v in kw.values():
+                mutate_object(v, r, undo)
+            try:
+                c5 = 'ok ' + canon(o1)
+            except Exception as e:  # noqa
+                c5 = 'err-on-reread ' + type(e).__name__
+            for u in reversed(undo):
+                u()
+            if c5 != c1:
+                return 'SEQ result-follows-argument built=%s after-the-arguments-were-changed-in-place=%s' % (c1, c5)
+            # 6. and the other way round: in-place changes of the result leave the arguments alone
+            before = {k: snap(v) for k, v in kw.items()}
+            mutate_object(o1, r, [])
+            after = {k: snap(v) for k, v in kw.items()}
+            if after != before:
+                bad = sorted(k for k in kw if after[k] != before[k])
+                return 'SEQ argument-follows-result %s: %s -> %s' % (bad[0], before[bad[0]][:80], after[bad[0]][:80])
         return c1
 
 
@@ -528,14 +605,22 @@ def make_uniform_case(sp, shared=None):
 def gen_series_spec(rng, tier):
     pattern = rng.choice(sorted(DOC_SERIES)) if rng.random() < 0.92 else tuple(rng.randint(0, 1) for _ in range(3))
     has_iv, has_rate, has_dur = pattern
-    unit_arg = rng.choice(UNITS + ['default', 'default', 's', 'ms'])
+    unit_arg = rng.choice(UNITS + ['default', 'default', 's', 'ms', 'none', 'none', 'none'])
     unit = unit_arg if unit_arg in UNITS else 's'
+    # an EXPLICIT time_unit=None (the default is 's'): the unit comes from a duration given as a time object, else from
+    # an interval given as a time object, else seconds; bare numbers are generated relative to that unit
+    infer = unit_arg == 'none'
+    force_T = None
+    if infer and (has_dur or has_iv) and rng.random() < 0.75:
+        unit = rng.choice(UNITS)
+        force_T = 'duration' if has_dur and (not has_iv or rng.random() < 0.6) else 'interval'
     f = FACTOR[unit]
     iv = rate = dur = None
     if has_iv:
         iv = gen_interval(rng, unit)
-        if rng.random() < 0.2:
-            iv = as_T(rng, unit, iv)
+        if force_T == 'interval' or rng.random() < (0.5 if force_T == 'duration' else 0.2):
+            # (display unit free only when it cannot change the inferred unit: with a duration object the duration wins)
+            iv = as_T(rng, unit, iv, disp=None if (not infer or force_T == 'duration') else unit)
             if iv[2] < 1:
                 iv = ('T', iv[1], 1)
     if has_rate:
@@ -556,8 +641,8 @@ def gen_series_spec(rng, tier):
         else:
             dv = dt * n / f
             dur = ('f', float(dv)) if rng.random() < 0.7 or dv < 1 else ('i', int(round(dv)))
-        if rng.random() < 0.2:
-            dur = as_T(rng, unit, dur)
+        if force_T == 'duration' or rng.random() < 0.2:
+            dur = as_T(rng, unit, dur, disp=unit if infer else None)
             if dur[2] < 1:
                 dur = ('T', dur[1], 1)
     ext = (dt or 1) * n
@@ -570,7 +655,9 @@ def series_data(n, ndim):
 
 
 def canon_series(s):
-    u = s.time_unit
+    # (with time_unit=None and no time object among the arguments the label stays None: `time_unit_conversion[None]`
+    # is documented as "the default is seconds", every value is read and stored in seconds)
+    u = 's' if s.time_unit is None else s.time_unit
     return 'S:%s:%d:%d:%s:%s' % (u, int(s.t0), int(s.sampling_interval), f2x(float(s.sampling_rate))[1:], canon_axis(s.time))
 
 
@@ -589,7 +676,7 @@ def make_series_case(sp, shared=None):
             if sp[k] is not None:
                 kw[name] = shared_real(sp[k], shared, fresh)
         if sp['unit'] != 'default':
-            kw['time_unit'] = 'fortnight' if sp['unit'] == 'bad' else sp['unit']
+            kw['time_unit'] = 'fortnight' if sp['unit'] == 'bad' else (None if sp['unit'] == 'none' else sp['unit'])
         return kw
     impl = construct_seq(build_args, lambda kw: T.TimeSeries(series_data(sp['n'], sp['ndim']), **kw), canon_series,
                          'S %r' % sorted((k, str(v)) for k, v in sp.items()))
@@ -622,6 +709,496 @@ def make_series_from_time_case(sp):
             'axis_obs': {k: v for k, v in axis_obs(axis).items() if k not in ('affine', 'S')}}
     return Case(line, impl, 'series/from-time' + ('' if sp['m'] == sp['axis'][3] else '/length-mismatch'),
                 cmp=cmp_intended, meta=meta, nontrivial=impl.startswith('ok'))
+
+
+# ------------------------------------------------------------------ two live objects: built FROM one another, changed in place
+# A program on a store of real objects (ids = positions, like the Lean `Heap`): constructions that take an existing
+# object (UniformTime(axis[, unit][, length]), axis.copy(), TimeSeries(data, time=axis), series.time, series.copy())
+# interleaved with every in-place operator UniformTime has (+= -= with scalars and ramps, *=, /=, __setitem__) applied
+# to ANY of the objects; after every command every object is observed again.
+HEAP_UNITS = ['ps', 'ns', 'us', 'ms', 's', 's', 's', 'm', 'h', 'D', 'W']
+HLIM = 2**57
+
+
+def sh_apply(e, op):
+    """documented effect of an in-place operator on (unit, t0, dt, n) -> new dict or 'err'
+    (plain python integers; written against the docstrings / the property, not the code)"""
+    f = FACTOR[e['unit']]
+    k = op[0]
+
+    def ps(kind, v):
+        return v * f if kind == 'i' else v
+    if k in ('as', 'ss'):
+        sg = 1 if k == 'as' else -1
+        return dict(e, t0=e['t0'] + sg * ps(op[1], op[2]))
+    if k in ('ar', 'sr'):
+        sg = 1 if k == 'ar' else -1
+        v0, d, cnt = ps(op[1], op[2]), ps(op[1], op[3]), op[4]
+        if cnt == 0:
+            return 'err'
+        if cnt == 1:
+            return dict(e, t0=e['t0'] + sg * v0)
+        if cnt != e['n'] or (d != 0 and e['dt'] + sg * d == 0):
+            return 'err'
+        return dict(e, t0=e['t0'] + sg * v0, dt=e['dt'] + sg * d)
+    if k == 'mu':
+        return 'err' if op[1] == 0 else dict(e, t0=e['t0'] * op[1], dt=e['dt'] * op[1])
+    if k == 'dv':
+        if op[1] == 0 or e['t0'] % op[1] or e['dt'] % op[1]:
+            return 'err'
+        return dict(e, t0=e['t0'] // op[1], dt=e['dt'] // op[1])
+    return 'err'        # st: setting single samples is refused
+
+
+class Shadow:
+    """what the property demands of every object after every command: a constructor gives a NEW object with the
+    sampling of its source (as overridden), an in-place operator changes the object it is applied to and no other"""
+
+    def __init__(self, ax):
+        self.axes = [dict(unit=ax[0], t0=ax[1], dt=ax[2], n=ax[3])]
+        self.origin = [('init', None)]
+        self.series = []          # dict(unit,t0,dt,n,time,src)
+
+    def _read_time(self, sid, kind):
+        s = self.series[sid]
+        if s['time'] is None:
+            self.axes.append(dict(unit=s['unit'], t0=s['t0'], dt=s['dt'], n=s['n']))
+            self.origin.append((kind, s['src']))
+            s['time'] = len(self.axes) - 1
+        return s['time']
+
+    def step(self, c):
+        """-> (expected status 'ok <res>' | 'err' | None when not judged, target axis id or None)"""
+        k = c[0]
+        if k == 'R':
+            e = dict(self.axes[c[1]])
+            if c[2] != 'none':
+                e['unit'] = c[2]
+            if c[3] is not None:
+                e['n'] = c[3]
+            self.axes.append(e)
+            self.origin.append(('rebuilt', c[1]))
+            return 'ok a%d' % (len(self.axes) - 1), None
+        if k == 'C':
+            self.axes.append(dict(self.axes[c[1]]))
+            self.origin.append(('copy', c[1]))
+            return 'ok a%d' % (len(self.axes) - 1), None
+        if k == 'S':
+            e = self.axes[c[1]]
+            if c[2] != e['n']:
+                return 'err', None
+            self.series.append(dict(unit=e['unit'] if c[3] == 'none' else c[3], t0=e['t0'], dt=e['dt'], n=c[2], time=None, src=c[1]))
+            return 'ok s%d' % (len(self.series) - 1), None
+        if k == 'T':
+            return 'ok a%d' % self._read_time(c[1], 'series-time'), None
+        if k == 'SC':
+            p = self._read_time(c[1], 'series-time')
+            s = self.series[c[1]]
+            # the copy is made from (a copy of) the series' time axis as it is NOW
+            self.series.append(dict(unit=s['unit'], t0=self.axes[p]['t0'], dt=self.axes[p]['dt'], n=s['n'], time=None, src=p))
+            return 'ok s%d' % (len(self.series) - 1), None
+        if k == 'I':
+            r = sh_apply(self.axes[c[1]], c[2])
+            if r == 'err':
+                return 'err', c[1]
+            self.axes[c[1]] = r
+            return 'ok -', c[1]
+        raise ValueError(c)
+
+    def relation(self, j, t):
+        """how object j is related to the object t an operator was applied to"""
+        if self.origin[j][1] == t:
+            return self.origin[j][0] + '/changed-by-operator-on-its-source'
+        if self.origin[t][1] == j:
+            return self.origin[t][0] + '/source-changed-by-operator-on-product'
+        if self.origin[j][1] is not None and self.origin[j][1] == self.origin[t][1]:
+            return self.origin[j][0] + '/changed-by-operator-on-sibling'
+        return self.origin[j][0] + '/changed-by-operator-on-other-object'
+
+
+def cmd_tok(c):
+    k = c[0]
+    if k == 'R':
+        return 'R:%d:%s:%s' % (c[1], c[2], '-' if c[3] is None else c[3])
+    if k == 'C':
+        return 'C:%d' % c[1]
+    if k == 'S':
+        return 'S:%d:%d:%s' % (c[1], c[2], c[3])
+    if k in ('T', 'SC'):
+        return '%s:%d' % (k, c[1])
+    return 'I:%d:%s' % (c[1], ':'.join(str(x) for x in c[2]))
+
+
+def gen_inplace(rng, e):
+    """an in-place operator for an axis with the (shadow) state e; mostly accepted ones, magnitudes bounded"""
+    f = FACTOR[e['unit']]
+    room = HLIM - (abs(e['t0']) + e['n'] * abs(e['dt']))
+    c = rng.random()
+    if c < 0.3:
+        kind = rng.choice('it')
+        top = max(0, min(1000, room // 4 // f)) if kind == 'i' else max(0, min(2**45, room // 4))
+        return (rng.choice(['as', 'ss']), kind, rng.randint(-top, top))
+    if c < 0.6:
+        name = rng.choice(['ar', 'sr'])
+        sg = 1 if name == 'ar' else -1
+        kind = rng.choice('it')
+        g = f if kind == 'i' else 1
+        cnt = e['n'] if rng.random() < 0.85 else rng.choice([0, 1, e['n'] + 1, max(1, e['n'] - 1)])
+        top = max(0, min(1000, room // 8 // g))
+        v0 = rng.randint(-top, top)
+        # the step keeps the interval positive (or, rarely, cancels it exactly: refused)
+        dmax = max(0, min(room // 8 // max(1, e['n']) // g, 10**6))
+        lo, hi = (-((e['dt'] - 1) // g), dmax) if sg == 1 else (-dmax, (e['dt'] - 1) // g)
+        d = rng.randint(min(lo, hi), max(lo, hi)) if rng.random() < 0.9 else 0
+        if rng.random() < 0.05 and e['dt'] % g == 0:
+            d = -sg * (e['dt'] // g)
+        return (name, kind, v0, d, cnt)
+    if c < 0.78:
+        k = rng.choice([1, 2, 2, 3, 5, 10, 0])
+        if (abs(e['t0']) + e['n'] * abs(e['dt'])) * max(1, k) >= HLIM:
+            k = 1
+        return ('mu', k)
+    if c < 0.95:
+        g = math.gcd(abs(e['t0']), e['dt'])
+        ds = [d for d in (2, 3, 4, 5, 7, 8, 10, 100, 1000) if g % d == 0]
+        return ('dv', rng.choice(ds) if ds and rng.random() < 0.8 else rng.choice([1, 2, 3, 7, 0]))
+    return ('st',)
+
+
+def gen_heap_spec(rng, tier):
+    u = rng.choice(HEAP_UNITS)
+    f = FACTOR[u]
+    c = rng.random()
+    if c < 0.5:
+        dt = max(1, int(gen_interval(rng, u)[1] * f))
+    elif c < 0.8:
+        dt = rng.choice([1, 2, 5, 10, 60, 250, 1000]) * rng.choice([f, max(1, f // 1000), 10**9, 10**12])
+    else:
+        dt = rng.randint(1, 10**13)
+    dt = min(dt, 2**46)
+    n = rng.choice([1, 2, 3, 4, 5, 8, rng.randint(2, 60), rng.randint(2, 60), rng.randint(60, 400),
+                    5000 if tier == 'thorough' or rng.random() < 0.3 else 77])
+    n = max(1, min(n, 2**50 // dt))
+    t0 = rng.choice([0, rng.randint(-1000, 1000) * min(f, 10**12), rng.randint(-2**44, 2**44), 6 * dt, -3 * dt])
+    sh = Shadow((u, t0, dt, n))
+    prog = []
+
+    def construct():
+        k = rng.random()
+        na, ns = len(sh.axes), len(sh.series)
+        if k < 0.3 or (k >= 0.6 and ns == 0):
+            src = rng.randrange(na)
+            e = sh.axes[src]
+            m = e['n'] if rng.random() < 0.93 else e['n'] + rng.choice([1, 2])
+            unit = e['unit'] if rng.random() < 0.55 else rng.choice(['none', 'none', 's', rng.choice(UNITS)])
+            return ('S', src, m, unit)
+        if k < 0.5:
+            src = rng.randrange(na)
+            w = rng.random()
+            return ('R', src, 'none' if w < 0.6 or w >= 0.8 else rng.choice(UNITS),
+                    None if w < 0.8 else rng.randint(1, 2 * sh.axes[src]['n']))
+        if k < 0.6:
+            return ('C', rng.randrange(na))
+        if k < 0.9:
+            return ('T', rng.randrange(ns))
+        return ('SC', rng.randrange(ns))
+
+    def push(c):
+        prog.append(c)
+        sh.step(c)
+    # a series on the first axis (or an axis rebuilt from it) comes early in most programs
+    for _ in range(rng.randint(1, 3)):
+        push(construct())
+    for _ in range(rng.randint(4, 11) if tier == 'quick' else rng.randint(4, 16)):
+        if len(sh.axes) + len(sh.series) < 9 and rng.random() < 0.4:
+            push(construct())
+        else:
+            t = rng.randrange(len(sh.axes))
+            push(('I', t, gen_inplace(rng, sh.axes[t])))
+    # every series' axis is read in the end, after whatever happened to the axes they were built from
+    for sid in range(len(sh.series)):
+        if sh.series[sid]['time'] is None and rng.random() < 0.8:
+            push(('T', sid))
+    if len(sh.axes) > 1 and rng.random() < 0.7:
+        t = rng.randrange(len(sh.axes))
+        push(('I', t, gen_inplace(rng, sh.axes[t])))
+    return {'axis': (u, int(t0), int(dt), int(n)), 'prog': prog}
+
+
+def canon_sobj(s, tid):
+    return 'S:%s:%d:%d:%s:%d:%s' % (s.time_unit, int(s.t0), int(s.sampling_interval), f2x(float(s.sampling_rate))[1:],
+                                    s.data.shape[-1], '-' if tid is None else tid)
+
+
+def _operand(op, r, T):
+    """the python object for the operand of an in-place operator (type drawn from r)"""
+    k = op[0]
+    if k in ('as', 'ss'):
+        if op[1] == 'i':
+            v = op[2]
+            return r.choice([v, np.int64(v), np.array(v, dtype=np.int64)] + ([np.int32(v)] if abs(v) < 2**31 else []))
+        t = T.TimeArray(np.int64(op[2]), time_unit='ps')
+        t.convert_unit(r.choice(UNITS))
+        return t
+    if k in ('ar', 'sr'):
+        vals = op[2] + op[3] * np.arange(op[4], dtype=np.int64)
+        if op[1] == 'i' or op[4] == 0:
+            return r.choice([vals, list(int(x) for x in vals)]) if op[4] <= 200 else vals
+        t = T.TimeArray(vals, time_unit='ps')
+        t.convert_unit(r.choice(UNITS))
+        return t
+    return op[1] if len(op) > 1 else None
+
+
+def _poke(axes, series, stime, origin):
+    """the objects' mutable parts written DIRECTLY (sample buffer through a plain ndarray view, the 0-d attribute
+    objects t0 / sampling_interval / duration in place, their unit label): no other object may notice.
+    Returns [(symptom, text)]."""
+    def obs_axis(a):
+        arr = np.asarray(a).view(np.ndarray)
+        return (arr[:64].tobytes(), arr[-1:].tobytes(), a.time_unit, int(a.t0), a.t0.time_unit, int(a.sampling_interval),
+                a.sampling_interval.time_unit, int(a.duration), a.duration.time_unit, float(a.sampling_rate))
+
+    def obs_series(s):
+        return (s.time_unit, int(s.t0), s.t0.time_unit, int(s.sampling_interval), s.sampling_interval.time_unit,
+                int(s.duration), s.duration.time_unit, float(s.sampling_rate))
+    names = ['samples', 'samples', 'unit', 't0', 't0-unit', 'interval', 'interval-unit', 'duration', 'duration-unit', 'rate']
+    snames = ['unit', 't0', 't0-unit', 'interval', 'interval-unit', 'duration', 'duration-unit', 'rate']
+    bad = []
+
+    def everything(skip_axis=None, skip_series=None):
+        return ([None if i == skip_axis else obs_axis(a) for i, a in enumerate(axes)],
+                [None if i == skip_series else obs_series(s) for i, s in enumerate(series)])
+
+    def compare(b, a, who):
+        for j, (x, y) in enumerate(zip(b[0], a[0])):
+            if x != y:
+                w = [names[q] for q in range(len(x)) if x[q] != y[q]][0]
+                bad.append(('%s/%s-shared' % (origin[j][0], w), 'axis #%d (%s) changed its %s when %s was written to directly' % (j, origin[j][0], w, who)))
+        for j, (x, y) in enumerate(zip(b[1], a[1])):
+            if x != y:
+                w = [snames[q] for q in range(len(x)) if x[q] != y[q]][0]
+                bad.append(('series-attrs/%s-shared' % w, 'series #%d changed its %s when %s was written to directly' % (j, w, who)))
+    for i, a in enumerate(axes):
+        b = everything(skip_axis=i)
+        try:
+            raw = np.asarray(a).view(np.ndarray)
+            raw += 1
+            for attr in ('t0', 'sampling_interval', 'duration'):
+                o = getattr(a, attr)
+                if isinstance(o, np.ndarray):
+                    v = o.view(np.ndarray)
+                    v += 1
+                    if hasattr(o, 'convert_unit'):
+                        o.convert_unit('ns' if o.time_unit != 'ns' else 'us')
+        except Exception:   # noqa  (read-only buffers etc.: nothing was written)
+            pass
+        compare(b, everything(skip_axis=i), 'axis #%d (%s)' % (i, origin[i][0]))
+    for i, s in enumerate(series):
+        b = everything(skip_series=i)
+        try:
+            for attr in ('t0', 'sampling_interval', 'duration'):
+                o = getattr(s, attr)
+                if isinstance(o, np.ndarray):
+                    v = o.view(np.ndarray)
+                    v += 1
+                    if hasattr(o, 'convert_unit'):
+                        o.convert_unit('ns' if o.time_unit != 'ns' else 'us')
+        except Exception:   # noqa
+            pass
+        compare(b, everything(skip_series=i), 'the attributes of series #%d' % i)
+    return bad
+
+
+def run_heap(sp, line):
+    """the program on real objects -> (trace string in the model's syntax, poke findings)"""
+    import operator
+    T = ts()
+    r = _seq_rng(line)
+    from common import err_kind
+    with np.errstate(all='ignore'), mem_guard():
+        axes, series, stime = [real_axis(sp['axis'])], [], {}
+        sh = Shadow(sp['axis'])      # only for the origin labels of the poke phase
+
+        def dump():
+            return '|'.join(canon_axis(a) for a in axes) + '#' + '|'.join(canon_sobj(s, stime.get(i)) for i, s in enumerate(series))
+
+        def read_time(sid):
+            if sid not in stime:
+                axes.append(series[sid].time)
+                stime[sid] = len(axes) - 1
+            return stime[sid]
+
+        def do(c):
+            k = c[0]
+            if k == 'R':
+                kw = {}
+                if c[2] != 'none':
+                    kw['time_unit'] = c[2]
+                if c[3] is not None:
+                    kw['length'] = c[3]
+                a = T.UniformTime(axes[c[1]], **kw)
+                axes.append(a)
+                return 'a%d' % (len(axes) - 1)
+            if k == 'C':
+                a = axes[c[1]].copy()
+                axes.append(a)
+                return 'a%d' % (len(axes) - 1)
+            if k == 'S':
+                s = T.TimeSeries(np.zeros(c[2], dtype=np.int8), time=axes[c[1]], time_unit=None if c[3] == 'none' else c[3])
+                series.append(s)
+                return 's%d' % (len(series) - 1)
+            if k == 'T':
+                return 'a%d' % read_time(c[1])
+            if k == 'SC':
+                s = series[c[1]].copy()
+                read_time(c[1])
+                series.append(s)
+                return 's%d' % (len(series) - 1)
+            op = c[2]
+            a = axes[c[1]]
+            x = _operand(op, r, T)
+            if op[0] in ('as', 'ar'):
+                axes[c[1]] = operator.iadd(a, x)
+            elif op[0] in ('ss', 'sr'):
+                axes[c[1]] = operator.isub(a, x)
+            elif op[0] == 'mu':
+                axes[c[1]] = operator.imul(a, x)
+            elif op[0] == 'dv':
+                axes[c[1]] = operator.itruediv(a, x)
+            else:
+                a[r.randrange(len(a))] = 5
+            return '-'
+        out = [dump()]
+        for c in sp['prog']:
+            if r.random() < 0.25:
+                pool = axes + series
+                exercise_keep_lazy(pool[r.randrange(len(pool))], r)
+            try:
+                st = 'ok ' + do(c)
+            except Exception as e:  # noqa
+                st = 'err ' + err_kind(e)
+            sh.step(c)
+            out.append(st + ' ' + dump())
+        while len(sh.origin) < len(axes):
+            sh.origin.append(('unexpected-object', None))
+        try:
+            poke = _poke(axes, series, stime, sh.origin)
+        except Exception as e:  # noqa
+            poke = [('poke-raised', 'direct writes raised %s' % type(e).__name__)]
+    return 'ok ' + ' ; '.join(out), poke
+
+
+def exercise_keep_lazy(obj, r):
+    """like `exercise`, but a series' unread `.time` stays unread (the program decides when it is first read)"""
+    T = ts()
+    if isinstance(obj, T.TimeSeries) and 'time' not in obj.__dict__:
+        with np.errstate(all='ignore'):
+            for op in (lambda: float(obj.duration), lambda: repr(obj.t0), lambda: len(obj), lambda: obj.sampling_rate.to_period('ms'),
+                       lambda: float(obj.sampling_interval)):
+                try:
+                    op()
+                except Exception:   # noqa
+                    pass
+        return
+    exercise(obj, r)
+
+
+def make_heap_case(sp):
+    ax = call(lambda: real_axis(sp['axis']))
+    if isinstance(ax, str):
+        return None
+    line = 'C02 heap %s %s' % (tok_axis_obj(ax), ';'.join(cmd_tok(c) for c in sp['prog']) or '-')
+    try:
+        impl, poke = run_heap(sp, line)
+    except Exception as e:  # noqa
+        from common import err_kind
+        impl, poke = 'err ' + err_kind(e), []
+    return Case(line, impl, 'alias/program', meta={'kind': 'heap', 'spec': sp, 'poke': poke})
+
+
+def judge_heap(c):
+    """-> (symptom key, text) or None.  Independent of the model: the Shadow above."""
+    sp = c.meta['spec']
+    if not c.impl.startswith('ok '):
+        return 'program-raised', 'the object program could not be run: %s' % c.impl
+    steps = c.impl[3:].split(' ; ')
+    sh = Shadow(sp['axis'])
+
+    def parse_dump(d):
+        a, s = d.split('#')
+        axes = [parse_axis(x) for x in a.split('|')] if a else []
+        ser = []
+        for x in (s.split('|') if s else []):
+            q = x.split(':')
+            ser.append({'unit': q[1], 't0': int(q[2]), 'dt': int(q[3]), 'rate': x2f('x' + q[4]), 'n': int(q[5]), 'time': q[6]})
+        return axes, ser
+
+    def axis_bad(o, e):
+        for k in ('unit', 't0', 'dt', 'n'):
+            if o[k] != e[k]:
+                return k, '%s is %s, must be %s' % (k, o[k], e[k])
+        if o['dur'] != e['n'] * e['dt']:
+            return 'duration', 'duration %d ps, the %d intervals of %d ps cover %d ps' % (o['dur'], e['n'], e['dt'], e['n'] * e['dt'])
+        if not o['affine']:
+            return 'samples', 'the samples are not t0 + i*interval of its own attributes'
+        first, second, last = [int(x) for x in o['S'].split(',')]
+        if (first, second, last) != (e['t0'], e['t0'] + min(1, e['n'] - 1) * e['dt'], e['t0'] + (e['n'] - 1) * e['dt']):
+            return 'samples', 'first/second/last sample %s' % o['S']
+        if e['dt'] > 0 and (not (o['rate'] > 0) or abs(e['dt'] - Fr(10**12) / Fr(o['rate'])) > 1 + Fr(e['dt']) / 2**51):
+            return 'rate', 'rate %r Hz vs interval %d ps' % (o['rate'], e['dt'])
+        return None
+    prev_ok = {}
+    for i, step in enumerate(steps):
+        if i == 0:
+            st, cmd, target, want = 'ok', None, None, 'ok'
+            d = step
+        else:
+            cmd = sp['prog'][i - 1]
+            if step.startswith('ok '):
+                st, d = step.split(' ', 2)[0] + ' ' + step.split(' ', 2)[1], step.split(' ', 2)[2]
+            else:
+                st, d = 'err', step.split(' ', 2)[2]
+                errname = step.split(' ', 2)[1]
+            want, target = sh.step(cmd)
+        axes, ser = parse_dump(d)
+        what = 'after command %d (%s) of %s' % (i, cmd_tok(cmd) if cmd else 'start', ';'.join(cmd_tok(x) for x in sp['prog'][:i]))
+        kindname = {'R': 'rebuilt', 'C': 'copy', 'S': 'series', 'T': 'series-time', 'SC': 'series-copy', 'I': 'inplace'}.get(cmd[0] if cmd else None, 'init')
+        if cmd and cmd[0] == 'I':
+            kindname += '/' + cmd[2][0]
+        if st != want:
+            if want == 'err':
+                return kindname + '/accepted', 'must be refused, was carried out ' + what
+            if st == 'err':
+                return kindname + '/raises-' + errname, 'raised %s %s' % (errname, what)
+            return kindname + '/returns-existing-object', 'returned %s, a new object %s was due %s' % (st, want, what)
+        if st == 'err' and errname != 'ValueError':
+            return kindname + '/raises-' + errname, 'refused with %s instead of ValueError %s' % (errname, what)
+        if len(axes) != len(sh.axes) or len(ser) != len(sh.series):
+            return kindname + '/object-count', '%d axes, %d series; expected %d, %d %s' % (len(axes), len(ser), len(sh.axes), len(sh.series), what)
+        for j, (o, e) in enumerate(zip(axes, sh.axes)):
+            b = axis_bad(o, e) if o else ('unparsable', 'unparsable')
+            if b:
+                if target is not None and j != target:
+                    return 'two-objects/' + sh.relation(j, target), \
+                        'axis #%d (%s of #%s) %s although the operator was applied to axis #%d: %s' % (j, sh.origin[j][0], sh.origin[j][1], b[1], target, what)
+                if target is not None:
+                    return kindname + '/wrong-effect/' + b[0], 'axis #%d after the operator: %s; %s' % (j, b[1], what)
+                return sh.origin[j][0] + '/product-wrong/' + b[0], 'axis #%d (%s of #%s): %s; %s' % (j, sh.origin[j][0], sh.origin[j][1], b[1], what)
+        for j, (o, e) in enumerate(zip(ser, sh.series)):
+            for k in ('unit', 't0', 'dt', 'n'):
+                if o[k] != e[k]:
+                    return ('series-attrs/changed-by-operator' if target is not None else 'series/product-wrong/' + k), \
+                        'series #%d: %s is %s, must be %s; %s' % (j, k, o[k], e[k], what)
+            if o['time'] != ('-' if e['time'] is None else str(e['time'])):
+                return 'series/time-object', 'series #%d holds axis %s as its time, expected %s; %s' % (j, o['time'], e['time'], what)
+            if e['dt'] > 0 and (not (o['rate'] > 0) or abs(e['dt'] - Fr(10**12) / Fr(o['rate'])) > 1 + Fr(e['dt']) / 2**51):
+                return 'series/rate-does-not-describe-interval', 'series #%d rate %r vs interval %d; %s' % (j, o['rate'], e['dt'], what)
+    if c.meta.get('poke'):
+        k, t = c.meta['poke'][0]
+        return 'shared-state/' + k, t + ' (after the program %s)' % ';'.join(cmd_tok(x) for x in sp['prog'])
+    return None
+
 
 
 def cases(rng, tier, seed):
@@ -744,8 +1321,39 @@ def cases(rng, tier, seed):
                {'n': 10, 'ndim': 1, 't0': None, 'interval': None, 'rate': None, 'duration': ('i', 10), 'unit': 'default'},
                {'n': 3, 'ndim': 2, 't0': ('f', 4.25), 'interval': None, 'rate': ('f', 1 / 0.81327), 'duration': None, 'unit': 'default'}]:
         out.append(make_series_case(sp))
+    # explicit time_unit=None: unit from the duration object, else from the interval object (in that order), else seconds;
+    # t0 as a time object never decides the unit
+    for sp in [{'n': 3, 'ndim': 1, 't0': None, 'interval': ('T', 'ms', 5 * 10**9), 'rate': None, 'duration': None, 'unit': 'none'},
+               {'n': 3, 'ndim': 1, 't0': None, 'interval': None, 'rate': None, 'duration': ('T', 'ms', 15 * 10**9), 'unit': 'none'},
+               {'n': 3, 'ndim': 2, 't0': ('T', 'h', 15 * 10**8), 'interval': ('T', 'us', 5 * 10**9), 'rate': None, 'duration': ('T', 'ms', 15 * 10**9), 'unit': 'none'},
+               {'n': 3, 'ndim': 1, 't0': ('T', 'ms', 15 * 10**11), 'interval': None, 'rate': ('f', 2.0), 'duration': None, 'unit': 'none'},
+               {'n': 3, 'ndim': 1, 't0': ('f', 0.5), 'interval': None, 'rate': ('F', 2.0), 'duration': ('T', 'ms', 15 * 10**11), 'unit': 'none'},
+               {'n': 4, 'ndim': 1, 't0': ('i', 2), 'interval': ('f', 0.25), 'rate': None, 'duration': None, 'unit': 'none'}]:
+        out.append(make_series_case(sp))
     for _ in range(500 * k):
         out.append(make_series_case(gen_series_spec(rng, tier)))
+    # --- the constructor of the time-valued arguments themselves: unit names, copy=False, dimensions
+    for j in range(60 * k):
+        kind = 'inxM'[j % 4] if j < 8 else rng.choice('iinnxxxM')
+        unit = ['bad', 'none'][j % 2] if j < 8 else rng.choice(UNITS + ['none', 'none', 'bad'])
+        cp = (j // 2) % 2 if j < 8 else int(rng.random() < 0.6)
+        f = FACTOR.get(unit, 10**12)
+        if kind in 'in':
+            v = rng.randint(-(2**55) // f, 2**55 // f) if cp or kind == 'i' else rng.randint(-2**60, 2**60)
+            x, tk = (v if kind == 'i' else np.int64(v)), '%s%d' % (kind, v)
+        elif kind == 'x':
+            v = float(rng.choice([rng.uniform(-1e3, 1e3), round(rng.uniform(-50, 50), rng.randint(0, 5)), 1 / 3.0, 0.81327, 2.2]))
+            if abs(v) * f >= 2**55:
+                v = 0.5
+            x, tk = v, f2x(v)
+        else:
+            x, tk = np.zeros((2, 2), dtype=np.int64), 'M'
+
+        def mk():
+            t = T.TimeArray(x, time_unit={'bad': 'fortnight', 'none': None}.get(unit, unit), copy=bool(cp))
+            return 'ok %d %s' % (int(t), t.time_unit)
+        out.append(Case('C02 tarray %s %s %d' % (tk, unit, cp), call(mk), 'timearray/new',
+                        meta={'kind': 'tarray', 'x': (kind, None if kind == 'M' else (int(x) if kind in 'in' else x)), 'unit': unit, 'copy': cp}))
     for _ in range(150 * k):
         au = rng.choice(UNITS)
         adt = max(1, int(gen_interval(rng, au)[1] * FACTOR[au]))
@@ -757,6 +1365,20 @@ def cases(rng, tier, seed):
               't0': None if rng.random() < 0.6 else gen_t0(rng, {'default': 's', 'none': au}.get(su, su), LIM // 8),
               'unit': su}
         c = make_series_from_time_case(sp)
+        if c:
+            out.append(c)
+    # --- two (and more) live objects built from one another, every in-place operator on either, all re-inspected
+    heap_corpus = [
+        {'axis': ('s', -10**12, 5 * 10**11, 8), 'prog': [('S', 0, 8, 's'), ('T', 0), ('S', 1, 8, 's'), ('I', 0, ('as', 'i', 3)), ('I', 0, ('mu', 2)), ('T', 1)]},
+        {'axis': ('ms', 0, 2 * 10**9, 10), 'prog': [('S', 0, 10, 'none'), ('I', 0, ('sr', 't', 5, -7, 10)), ('T', 0), ('I', 1, ('dv', 2)), ('R', 1, 'none', None), ('I', 2, ('ss', 't', 10**9))]},
+        {'axis': ('s', 4250000000000, 333333333333, 5), 'prog': [('R', 0, 'none', None), ('I', 0, ('ar', 'i', 1, 1, 5)), ('R', 1, 'ms', 7), ('I', 1, ('mu', 3)), ('C', 2), ('I', 3, ('as', 't', -17))]},
+    ]
+    for sp in heap_corpus:
+        c = make_heap_case(sp)
+        if c:
+            out.append(c)
+    for _ in range(260 * k):
+        c = make_heap_case(gen_heap_spec(rng, tier))
         if c:
             out.append(c)
     # --- Frequency, to_period, arange contract
@@ -933,6 +1555,9 @@ def check_case(c):
     def fail(sym, what):
         return Failure('%s/%s' % (c.clause, sym), '%s: %s  [op: %s] impl=%s' % (c.clause, what, c.line[:220], c.impl[:160]),
                        {'kind': kind, 'clause': c.clause, 'meta': m, 'key': '%s/%s' % (c.clause, sym)}, case=c)
+    if kind == 'heap':
+        r = judge_heap(c)
+        return fail(*r) if r else None
     if c.impl.startswith('SEQ '):
         return fail('hidden-state/' + c.impl.split()[1], 'the result depends on what was done before with the same objects: ' + c.impl[:300])
     if kind == 'to_period_seq':
@@ -988,7 +1613,7 @@ def check_case(c):
             if not c.impl.startswith('ok '):
                 return fail('raises-' + c.impl.split()[-1], 'documented argument combination refused (%s)' % c.impl)
             s = parse_series(c.impl[3:])
-            unit = expected_unit(sp['unit'] if sp['unit'] != 'default' else 's', None, None, None)
+            unit = expected_unit(sp['unit'] if sp['unit'] != 'default' else 's', None, sp['duration'], sp['interval'])
             o = s['time']
             if s['t0'] != o['t0'] or s['dt'] != o['dt']:
                 return fail('series-attrs-vs-axis', 'series t0/interval %s differ from its time axis %s' % ((s['t0'], s['dt']), (o['t0'], o['dt'])))
@@ -1021,6 +1646,25 @@ def check_case(c):
             return fail('truncated', 'period %d ps is the truncation of the computed %r ps, nearest is %d' % (p, v, round(v)))
         if abs(p - P) > Fr(1, 2) + P / 2**51:
             return fail('truncated' if p == math.floor(P) else 'wrong', 'period %d ps of %r Hz, 1/f = %.6f ps' % (p, m['hz'], float(P)))
+        return None
+    if kind == 'tarray':
+        xk, xv = m['x']
+        refuse = m['unit'] == 'bad' or xk == 'M' or (not m['copy'] and xk != 'n')
+        if refuse:
+            if c.impl == 'err ValueError':
+                return None
+            return fail('accepted' if c.impl.startswith('ok') else 'raises-' + c.impl.split()[-1],
+                        'TimeArray(%s %r, time_unit=%s, copy=%s) must be refused with ValueError: %s' % (xk, xv, m['unit'], bool(m['copy']), c.impl))
+        if not c.impl.startswith('ok '):
+            return fail('raises-' + c.impl.split()[-1], 'valid TimeArray arguments refused: %s' % c.impl)
+        ps, u = c.impl[3:].split()
+        wu = 's' if m['unit'] == 'none' else m['unit']
+        if u != wu:
+            return fail('unit', 'unit %s, want %s' % (u, wu))
+        want = Fr(xv) if not m['copy'] else Fr(xv) * FACTOR[wu]
+        slack = 0 if xk in 'in' else Fr(1, 2) + abs(want) / 2**52
+        if abs(int(ps) - want) > slack:
+            return fail('value', '%s ps for %r %s (copy=%s)' % (ps, xv, wu, bool(m['copy'])))
         return None
     if kind == 'freq':
         want = Fr(m['f'][1]) * Fr(10**12, FACTOR[m['unit']])
@@ -1120,6 +1764,14 @@ def replay(d):
         c = make_series_case(m['spec'])
     elif kind == 'series_from_time':
         c = make_series_from_time_case(m['spec'])
+    elif kind == 'heap':
+        c = make_heap_case(m['spec'])
+    elif kind == 'tarray':
+        xk, xv = m['x']
+        x = {'i': lambda: int(xv), 'n': lambda: np.int64(xv), 'x': lambda: float(xv), 'M': lambda: np.zeros((2, 2), dtype=np.int64)}[xk]()
+        impl = call(lambda: (lambda t: 'ok %d %s' % (int(t), t.time_unit))(
+            ts().TimeArray(x, time_unit={'bad': 'fortnight', 'none': None}.get(m['unit'], m['unit']), copy=bool(m['copy']))))
+        c = Case('C02 tarray', impl, d['clause'], meta=m)
     elif kind == 'to_period':
         impl = call(lambda: 'ok %d' % int(ts().Frequency(m['hz']).to_period()))
         c = Case('C02 to_period', impl, d['clause'], meta=m)
